@@ -956,7 +956,9 @@ class CallMixin:
                     if con is not None:
                         break
             else:
-                con = self.reg.method_contract(recv.ty.arg, name)
+                # an abstract (external) method may have one contract per arity: "<Class>.<method>/<number of arguments>"
+                con = self.reg.method_contract(recv.ty.arg, "%s/%d" % (name, len(args) + len(kwargs))) or \
+                    self.reg.method_contract(recv.ty.arg, name)
             if con is None:
                 raise Unsupported("method %s.%s has no contract" % (recv.ty.arg, name))
             if con.params is None and self.frontend.is_staticmethod(self.frontend.function_node(con)):
@@ -1478,7 +1480,10 @@ class CallMixin:
 
     def contract_defaults(self, con):
         if con.params is not None:
-            return {}
+            out = {}
+            for k, v in con.options.get("defaults", {}).items():
+                out[k] = self.ev_Constant(ast.Constant(v), None, False)
+            return out
         fn = self.frontend.function_node(con)
         names = [a.arg for a in fn.args.args]
         out = {}
